@@ -374,7 +374,7 @@ theorem escapeRaw_quoteToksBy {f : Char → Bool} (hf : SafeSet f) (ts : List To
       obtain ⟨b, _, hb⟩ := ht
       simp [escOfByte] at hb
   | esc h1 h2 => simp [quoteTokBy] at ht
-  | stray => simp [quoteTokBy] at ht
+  | stray => simp [quoteTokBy, hf.pct_false] at ht
 
 /-- **round trip on strings**: the safe unquoter applied to the quoted output of the safe
 unquoter gives that output back, for every clean input -/
